@@ -18,9 +18,9 @@ package gorums
 //@ specfun apply_lessFunc(Int, Int, Int) Bool
 //@ funtype lessFunc pure apply_lessFunc
 
-//@ definerec lex(r (Array Int Int), o Int, n Int, k Int, p Int, q Int) Bool = \
-//@     ite(k >= n - 1, apply_lessFunc(r[o+k], p, q), \
-//@         apply_lessFunc(r[o+k], p, q) || (!apply_lessFunc(r[o+k], q, p) && lex(r, o, n, k+1, p, q)))
+//@ definerec lex(r (Array Int Int), s Slice, k Int, p Int, q Int) Bool = \
+//@     ite(k >= len(s) - 1, apply_lessFunc(r[sidx(s, k)], p, q), \
+//@         apply_lessFunc(r[sidx(s, k)], p, q) || (!apply_lessFunc(r[sidx(s, k)], q, p) && lex(r, s, k+1, p, q)))
 
 //@ func (*MultiSorter).Less
 //@   props C19
@@ -31,9 +31,9 @@ package gorums
 //@   loop "for k = 0; k < len(ms.less)-1; k++"
 //@     invariant 0 <= k && k <= len(ms.less) - 1
 //@     invariant p == old(ms.nodes[i]) && q == old(ms.nodes[j])
-//@     invariant lex(row(ms.less), off(ms.less), len(ms.less), 0, p, q) == lex(row(ms.less), off(ms.less), len(ms.less), k, p, q)
+//@     invariant lex(row(ms.less), ms.less, 0, p, q) == lex(row(ms.less), ms.less, k, p, q)
 //@     decreases len(ms.less) - 1 - k
-//@   ensures[C19.b] result == lex(row(ms.less), off(ms.less), len(ms.less), 0, ms.nodes[i], ms.nodes[j])
+//@   ensures[C19.b] result == lex(row(ms.less), ms.less, 0, ms.nodes[i], ms.nodes[j])
 
 //@ func (*MultiSorter).Len
 //@   props C19
@@ -322,3 +322,176 @@ package gorums
 //@   requires f != nil
 //@   ensures[C02.f] closed(f.c) ==> result
 //@   ensures[C02.f] result ==> closed(f.c)
+
+// ---------------------------------------------------------------- correctable.go
+//
+// Correctable is a monitor: reply, level, err, done, watchers (and the slots of the
+// watcher slice) are protected by mu. The only writer is set, and set is called only by
+// the call's handler goroutine (field modes below), so set and the handler are verified
+// without interference between their critical sections; Get and Watch are verified in
+// concurrent mode (guarded state havocked at Lock, invariant assumed).
+
+//@ monitor Correctable.mu guards reply level err done watchers watchers[]
+//@   invariant !this.done ==> this.donech != nil && !closed(this.donech)
+//@   invariant[C11.f] this.done ==> closed(this.donech)
+//@   invariant[C11.c] !this.done ==> forall(i, 0, len(this.watchers), this.watchers[i] == nil || \
+//@       (this.watchers[i].level > this.level && this.watchers[i].ch != nil && !closed(this.watchers[i].ch) && this.watchers[i].ch != this.donech))
+//@   invariant forall(i, 0, len(this.watchers), forall(j, 0, len(this.watchers), \
+//@       i != j && this.watchers[i] != nil && this.watchers[j] != nil ==> this.watchers[i].ch != this.watchers[j].ch))
+
+//@ field Correctable.reply writers (*Correctable).set props C11 C15
+//@ field Correctable.level writers (*Correctable).set props C11 C15
+//@ field Correctable.err writers (*Correctable).set props C11 C15
+//@ field Correctable.done writers (*Correctable).set props C11 C15
+//@ field Correctable.reply guarded_by mu props C11 C15
+//@ field Correctable.level guarded_by mu props C11 C15
+//@ field Correctable.err guarded_by mu props C11 C15
+//@ field Correctable.done guarded_by mu props C11 C15
+//@ field Correctable.watchers guarded_by mu props C11 C15
+//@ field Correctable.donech immutable props C11 C15
+//@ field watcher.ch immutable props C11 C15
+//@ field watcher.level immutable props C11 C15
+
+//@ func (*Correctable).Get
+//@   props C11
+//@   nopanic C11
+//@   mode concurrent
+//@   requires c != nil
+//@   ensures[C11.b] result0 == c.reply && result1 == c.level && result2 == c.err
+
+//@ func (*Correctable).Done
+//@   props C11
+//@   nopanic C11
+//@   requires c != nil
+//@   ensures[C11.f] result == c.donech
+
+//@ func (*Correctable).Watch
+//@   props C11
+//@   nopanic C11
+//@   mode concurrent
+//@   requires c != nil
+//@   ghost lv Int = 0
+//@   ghost dn Bool = false
+//@   on call "c.mu.Lock"
+//@     after set lv = c.level
+//@     after set dn = c.done
+//@   ensures[C11.c] level <= lv ==> closed(result)
+//@   ensures[C11.c] level > lv ==> exists(i, 0, len(c.watchers), c.watchers[i] != nil && c.watchers[i].ch == result && c.watchers[i].level == level)
+
+//@ func (*Correctable).set
+//@   props C11
+//@   nopanic C11
+//@   requires c != nil
+//@   requires[C11.e] !c.done
+//@   requires[C11.d] level >= c.level
+//@   loop "for _, watcher := range c.watchers"
+//@     invariant c.watchers == old(c.watchers) && c.done && closed(c.donech)
+//@     invariant forall(j, 0, len(c.watchers), c.watchers[j] == old(c.watchers[j]))
+//@     invariant forall(j, 0, idx, c.watchers[j] == nil || closed(c.watchers[j].ch))
+//@     invariant forall(j, idx, len(c.watchers), c.watchers[j] == nil || (c.watchers[j].ch != nil && !closed(c.watchers[j].ch)))
+//@   loop "for i := range c.watchers"
+//@     invariant c.watchers == old(c.watchers) && !c.done && c.level == level && !closed(c.donech) && c.donech != nil
+//@     invariant forall(j, 0, idx, c.watchers[j] == nil || (c.watchers[j] == old(c.watchers[j]) && c.watchers[j].level > level && !closed(c.watchers[j].ch)))
+//@     invariant forall(j, 0, idx, old(c.watchers[j]) != nil && old(c.watchers[j]).level <= level ==> closed(old(c.watchers[j]).ch))
+//@     invariant forall(j, 0, idx, old(c.watchers[j]) != nil && old(c.watchers[j]).level > level ==> c.watchers[j] == old(c.watchers[j]))
+//@     invariant forall(j, idx, len(c.watchers), c.watchers[j] == old(c.watchers[j]))
+//@     invariant forall(j, idx, len(c.watchers), c.watchers[j] == nil || (c.watchers[j].ch != nil && !closed(c.watchers[j].ch)))
+//@   ensures[C11.b] c.reply == reply && c.level == level && c.err == err && c.done == done
+//@   ensures[C11.c] forall(j, 0, len(old(c.watchers)), old(c.watchers[j]) != nil && (done || old(c.watchers[j]).level <= level) ==> closed(old(c.watchers[j]).ch))
+//@   ensures[C11.c] !done ==> forall(j, 0, len(old(c.watchers)), old(c.watchers[j]) != nil && old(c.watchers[j]).level > level ==> \
+//@       c.watchers[j] == old(c.watchers[j]) && !closed(old(c.watchers[j]).ch))
+//@   ensures[C11.f] done ==> closed(c.donech)
+//@   ensures c.donech == old(c.donech)
+
+//@ func (RawConfiguration).CorrectableCall
+//@   props C11 C06
+//@   nopanic C11
+//@   requires len(c) > 0 && forall(m, 0, len(c), c[m] != nil && c[m].channel != nil) && c[0].mgr != nil
+//@   requires d.QuorumFunction != nil && ctx != nil
+//@   requires Incomplete != nil
+//@   ghost ntarget Int = 0
+//@   ghost pnMsg Iface = nilI()
+//@   ghost spawned Int = 0
+//@   loop "for _, n := range c"
+//@     invariant expectedReplies - (len(c) - idx) == ntarget && 0 <= ntarget && ntarget <= idx
+//@     invariant cap(replyChan) == len(c) && replyChan != nil && !closed(replyChan)
+//@     invariant md != nil && ctx == old(ctx) && spawned == 0
+//@   on call "d.PerNodeArgFn"
+//@     assert[C06.b] arg0 == old(d.Message) && arg1 == c[idx-1].id
+//@     after assume res0 != nil
+//@     after set pnMsg = res0
+//@   on call "n.channel.enqueue"
+//@     assert[C06.a] old(d.PerNodeArgFn) == nil ==> arg0.msg.Message == old(d.Message)
+//@     assert[C06.b] old(d.PerNodeArgFn) != nil ==> arg0.msg.Message == pnMsg
+//@     assert[C06.a] recv == c[idx-1].channel && arg0.ctx == old(ctx) && arg0.msg.Metadata == md && md.Method == old(d.Method)
+//@     assert[C05.a] arg1 == replyChan && arg2 == old(d.ServerStream) && !arg0.opts.noSendWaiting && arg0.opts.callType == nil
+//@     after set ntarget = ntarget + 1
+//@   on go "c.handleCorrectableCall"
+//@     assert[C11.e] arg2.expectedReplies == ntarget && arg2.replyChan == replyChan && arg2.md == md
+//@     assert[C11.b] arg2.data == old(d) && arg0 == old(ctx) && recv == old(c)
+//@     assert[C11.a] arg1 != nil && fresh(arg1) && arg1.level == LevelNotSet && arg1.reply == nil && arg1.err == nil && !arg1.done
+//@     assert[C11.a] arg1.donech != nil && !closed(arg1.donech) && len(arg1.watchers) == 0
+//@     assert[C11.e] spawned == 0
+//@     after set spawned = spawned + 1
+//@   ensures[C11.e] result != nil && spawned == 1
+
+//@ func (RawConfiguration).handleCorrectableCall
+//@   props C11
+//@   nopanic C11
+//@   requires corr != nil && !corr.done && corr.level == LevelNotSet && ctx != nil
+//@   requires state.data.QuorumFunction != nil && state.expectedReplies >= 0 && state.md != nil
+//@   requires forall(m, 0, len(c), c[m] != nil && c[m].channel != nil)
+//@   requires Incomplete != nil
+//@   ghost seen (Array Int Bool) = constarr("Int", false)
+//@   ghost failed (Array Int Bool) = constarr("Int", false)
+//@   ghost nH Int = 0
+//@   ghost nOK Int = 0
+//@   ghost nErr Int = 0
+//@   ghost sawDone Bool = false
+//@   ghost doneCalls Int = 0
+//@   ghost pend Bool = false
+//@   ghost pendDone Bool = false
+//@   ghost pendV Iface = nilI()
+//@   ghost pendL Int = 0
+//@   ghost hi Int = LevelNotSet
+//@   loop "for {"
+//@     invariant[C11.e] !state.data.ServerStream ==> nH <= state.expectedReplies
+//@     invariant[C11.e] state.data.ServerStream ==> nErr <= state.expectedReplies
+//@     invariant len(errs) == nErr && nH == nErr + nOK && 0 <= nOK && 0 <= nErr
+//@     invariant !state.data.ServerStream ==> len(replies) == nOK
+//@     invariant replies != nil && (!state.data.ServerStream ==> forall(k, in(k, replies) <==> (seen[k] && !failed[k])))
+//@     invariant[C11.b] clevel == corr.level && clevel == hi && hi >= LevelNotSet
+//@     invariant[C11.e] !corr.done && doneCalls == 0 && !sawDone
+//@     invariant[C11.b] !pend
+//@   on select
+//@     assert[C11.e] state.data.ServerStream ==> nErr < state.expectedReplies
+//@     assert[C11.e] !state.data.ServerStream ==> nH < state.expectedReplies
+//@     assert[C11.e] !sawDone
+//@     assert[C11.b] !pend
+//@   on recv "ctx.Done()"
+//@     set sawDone = true
+//@   on recv "state.replyChan" as r
+//@     assume !state.data.ServerStream ==> !seen[r.nid]
+//@     assume state.data.ServerStream && r.err != nil ==> !failed[r.nid]
+//@     set seen = store(seen, r.nid, true)
+//@     set failed = store(failed, r.nid, r.err != nil)
+//@     set nH = nH + 1
+//@     set nOK = nOK + ite(r.err == nil, 1, 0)
+//@     set nErr = nErr + ite(r.err == nil, 0, 1)
+//@   on call "state.data.QuorumFunction"
+//@     assert[C11.b] arg0 == old(state.data.Message) && arg1 == replies
+//@     assert[C11.e] doneCalls == 0
+//@     after set pend = res1 > hi || res2
+//@     after set pendDone = res2
+//@     after set pendV = res0
+//@     after set pendL = res1
+//@     after set hi = ite(res1 > hi, res1, hi)
+//@   on call "corr.set"
+//@     assert[C11.e] doneCalls == 0
+//@     assert[C11.b] pend ==> arg0 == pendV && arg3 == pendDone && arg2 == nil
+//@     assert[C11.b] pend ==> arg1 == hi
+//@     assert[C11.e] !pend ==> arg3 && arg1 == hi && arg2 != nil
+//@     after set doneCalls = doneCalls + ite(arg3, 1, 0)
+//@     after set pend = false
+//@   ensures[C11.e] doneCalls == 1 && corr.done
+//@   ensures[C11.b] !pend
